@@ -11,6 +11,7 @@ FILE = 'mindsdb_sql/__init__.py'
 
 class SuggestModel:
     def __init__(self, src):
+        self._memo = {}
         tree = src.tree(FILE)
         cls = None
         for n in tree.body:
@@ -56,6 +57,12 @@ class SuggestModel:
             raise AnalysisError('make_suggestion: the `1 < len(expected) < N` test was not found')
 
     def classify(self, token_name, pattern):
+        key = (token_name, pattern if isinstance(pattern, (str, type(None))) else '<callable>')
+        if key not in self._memo:
+            self._memo[key] = self._classify(token_name, pattern)
+        return self._memo[key]
+
+    def _classify(self, token_name, pattern):
         """-> ('break', display) | ('add', display) | ('skip', None): what one iteration of the loop does for a token
         type whose lexer attribute is `pattern` (a str for string rules, None/callable marker otherwise)."""
         env = {self.tokvar: token_name, self.valvar: pattern,
